@@ -343,7 +343,7 @@ func builders() map[string][]variant {
 		return one(&schema.DatabaseSettings{DatabaseName: fmt.Sprintf("newdb%d", c.n)})
 	}})
 	imm("CreateDatabaseV2", variant{restore: dropNewDBs, build: func(c *cell) []proto.Message {
-		return one(&schema.CreateDatabaseRequest{Name: fmt.Sprintf("newdb%d", c.n)})
+		return one(&schema.CreateDatabaseRequest{Name: fmt.Sprintf("newdb%d", c.n), Settings: tinySettings()})
 	}})
 	imm("LoadDatabase", variant{disrupt: true, prepare: unloadTarget, restore: repairTarget, build: func(c *cell) []proto.Message {
 		return one(&schema.LoadDatabaseRequest{Database: c.targetDB})
